@@ -17,15 +17,15 @@ for p in claimed:
       "evidence_file":f"/verif/evidence/{p}.json",
       "replay_cmd_template":f"/verif/bin/verif replay {p} {{path}}",
       "engine":"symgo",
-      "level_claimed":{"category":"model_checking","text":m['level_text'],"design_ref":m.get('design_ref','DESIGN.md section 6')},
+      "level_claimed":{"category":"model_checking","text":m['level_text'],"design_ref":m.get('design_ref','DESIGN.md section 6 (plan), section 10 and Appendix D (as built: obligations, bounds, kernels)')},
       "level_note":m['level_note'],
-      "technique":m.get('technique',"bounded symbolic execution of the real Go functions (go/ssa -> SMT-LIB2), z3 5.1.0 decides each assertion; counterexamples replayed natively with go test -overlay"),
+      "technique":m.get('technique',"bounded symbolic execution of the real Go functions (go/ssa -> SMT-LIB2), an SMT solver decides each assertion within the stated bounds (z3 5.1.0, with z3 4.8.12 and cvc5 1.0 raced on slow queries; first definite answer wins); counterexamples are replayed natively with go test -overlay before they are reported, and sampled path models are cross-checked against native runs every time"),
     })
 na=[{"property_id":p['id'],"reason":meta.get(p['id'],{}).get('na_reason',"check not built yet (work in progress; see DESIGN.md section 6)")} for p in props if p['id'] not in claimed]
 man={"version":1,
  "setup_cmd":"cd /verif/engine && GOFLAGS=-mod=mod GOPROXY=off GOSUMDB=off GOTOOLCHAIN=local go build -o /verif/bin/verif .",
  "hooks":{"guard":"verif","enable":"no hooks: harnesses are overlaid in-package at load time (go/packages Overlay) and at replay time (go test -overlay); nothing guarded lives in /repo","baseline_off_cmd":"cd /repo && GOFLAGS=-mod=mod GOPROXY=off GOSUMDB=off GOTOOLCHAIN=local go test -vet=off -count=1 -timeout 25m ./...","source_commits":[],"add_only":True},
- "engines":[{"name":"symgo","path":"/verif/engine","serves_properties":claimed,"kind_free_text":"Go SSA -> SMT-LIB2 bounded symbolic executor written for this task (x/tools v0.29.0 go/ssa), z3 5.1.0 (z3-new) back end, native replay through go test -overlay"}],
+ "engines":[{"name":"symgo","path":"/verif/engine","serves_properties":claimed,"kind_free_text":"Go SSA -> SMT-LIB2 bounded symbolic executor written for this task (x/tools v0.29.0 go/ssa), solver portfolio z3 5.1.0 (z3-new, primary) / z3 4.8.12 / cvc5 1.0, native replay and translator validation through go test -overlay"}],
  "checks":checks,
  "notes":"Every check regenerates its encoding from /repo's working tree. Exit 0: all registered assertions discharged (or violated only inside a listed known-finding region); exit 1 + VIOLATION line: a counterexample that reproduced natively; exit 2: engine error (load failure, vacuous harness, translator-validation mismatch). INCONCLUSIVE lines (solver unknown, unsupported construct, caps) are reported in the evidence and never counted as success.",
  "not_applicable":na}
